@@ -61,9 +61,10 @@ def box(o):
 
 def no_shared_boxes(parent, children):
     """no two areas (parent, children) share a start / end list object: a later in-place change of one must not move another"""
-    boxes = [parent.fields["start"], parent.fields["end"]]
+    boxes = [parent.fields["start"], parent.fields["end"], parent.fields.get("levelvec_dict")]
     for c in children:
-        boxes += [c.fields["start"], c.fields["end"]]
+        boxes += [c.fields["start"], c.fields["end"], c.fields.get("levelvec_dict")]   # the per-area collision table must be the area's own, too
+    boxes = [b for b in boxes if b is not None]
     return all(boxes[i] is not boxes[j] for i in range(len(boxes)) for j in range(i + 1, len(boxes)))
 
 
@@ -121,7 +122,7 @@ class SplitSingleDim(Contract):
                 Cl("children-keep-coarsening", z3.And(*[c.fields["coarseningValue"] == so["coarseningValue"] for c in result.items]), prop=True),
                 Cl("children-count-the-split", z3.And(*[c.fields["needExtendScheme"] == so["needExtendScheme"] + 1 for c in result.items])),
                 Cl("parent-box-unchanged", z3.And(*[z3.And(a == b, c == dd) for (a, c), (b, dd) in zip(box(env["self"]), pb)])),
-                Cl("children-own-their-coordinate-lists", no_shared_boxes(env["self"], result.items))]
+                Cl("children-own-their-coordinate-lists-and-collision-tables", no_shared_boxes(env["self"], result.items), prop=True)]
         return out
 
 
@@ -169,7 +170,7 @@ class SplitArbitraryDim(Contract):
             Cl("children-keep-coarsening", z3.And(*[c.fields["coarseningValue"] == so["coarseningValue"] for c in result.items]), prop=True),
             Cl("children-count-the-split", z3.And(*[c.fields["needExtendScheme"] == so["needExtendScheme"] + 1 for c in result.items])),
             Cl("parent-box-unchanged", z3.And(*[z3.And(a == b, c == dd) for (a, c), (b, dd) in zip(box(env["self"]), pb)])),
-            Cl("children-own-their-coordinate-lists", no_shared_boxes(env["self"], result.items))]
+            Cl("children-own-their-coordinate-lists-and-collision-tables", no_shared_boxes(env["self"], result.items), prop=True)]
 
 
 class RefineExtendSplit(Contract):
